@@ -303,6 +303,8 @@ void HttpMessage::readBody()
 		}
 		byte buffer[RECV_BLOCK_SIZE];
 		int maxToRead = _socket->available(), bytesRead = 0;
+		if (maxToRead <= 0 && !chunked) // readable but nothing available: the peer closed before sending the whole body
+			break;
 		if (chunked)
 		{
 			String chunkSize = _socket->readLine();
